@@ -6,6 +6,8 @@
     pput                         → ok <collisions> <late> | none  (… registration)
     prej                         → ok | none                      (… refused by the server callback)
     del <id>                     → ok                      (ChannelMap.delete / weak reference died)
+    pfail <id> <0|1>             → ok                      (peer OPEN_FAILURE naming id; 1 = our open of id is pending)
+    psucc <id>                   → ok                      (peer OPEN_CONFIRMATION naming id)
     live                         → ids in ascending order (comma separated, - if none)
     gen <counter> <id,id,…|->    → generated kernel: <id> <counter> | hung
 -/
@@ -56,6 +58,15 @@ def step' (s : St) (line : String) : St × String :=
   | ["del", i] =>
     match i.toNat? with
     | some i => (step s (.delete i), "ok")
+    | none => (s, "bad-op")
+  | ["pfail", i, p] =>
+    match i.toNat?, p with
+    | some i, "1" => (step s (.peerFailure i true), "ok")
+    | some i, "0" => (step s (.peerFailure i false), "ok")
+    | _, _ => (s, "bad-op")
+  | ["psucc", i] =>
+    match i.toNat? with
+    | some i => (step s (.peerSuccess i), "ok")
     | none => (s, "bad-op")
   | ["live"] => (s, showIds s.live)
   | ["gen", c, ids] =>
